@@ -11,6 +11,7 @@ the context does not change the result. The last three need user functions that 
 answer with unknown-identifier errors (`NoFabricate`); without it the renaming claim is false
 (`C14_rename_unrestricted_false`, proved). Proofs: Proofs/Iterators, IterClean, IterEval, IterRename.
 -/
+import EvalexprVerif.Proofs.IteratorsSeq
 import EvalexprVerif.Proofs.Iterators
 import EvalexprVerif.Proofs.AgreeIter
 
@@ -28,6 +29,21 @@ theorem C14_class_sublist (n : Node) (k : IterKind) : (n.iterIdents k).Sublist (
   Evalexpr.Spec.C14_class_sublist n k
 /-- **C14 (source order and class)** -/
 theorem C14_source (e : Expr) : identOccurrences ⟨.rootNode, [toTree e]⟩ = occ e := Evalexpr.Spec.C14_source e
+/-- the same over the whole domain of C05: on the tree of ANY sequence level (chains of tuples of optional
+operands, parenthesised levels, absent elements and empty groups `()`), the iterators list every identifier
+occurrence in source order, correctly classified -/
+theorem C14_source_level (l : Level) : identOccurrences (levelTree l) = occLevel l :=
+  Evalexpr.Spec.C14_source_level l
+
+/-- … and that is the tree the builder returns for the level's tokens -/
+theorem C14_source_level_built (l : Level) (h : levelWf l = true) :
+    (tokensToOperatorTree (renderLevel l)).map identOccurrences = .ok (occLevel l) :=
+  Evalexpr.Spec.C14_source_level_built l h
+
+/-- `a; ; f x, ()`: the occurrences after an absent element and before an empty group are all listed -/
+example : occLevel [[some (.expr (.var cl!"a"))], [none], [some (.expr (.call cl!"f" (.var cl!"x"))), some (.group [[]])]]
+    = [(.read, cl!"a"), (.function, cl!"f"), (.read, cl!"x")] := rfl
+
 theorem C14_rename_occurrences (n : Node) (k : IterKind) (f : Str → Str) :
     identOccurrences (n.renameDesc k f) =
       (identOccurrences n).map (fun p => (p.1, if k.keeps p.1 then f p.2 else p.2)) :=
